@@ -62,7 +62,8 @@ TNext ==
 TRestart ==
     /\ Is("QRestart") /\ Adv
     /\ viol' = viol \o Failed(<< <<"C10.RestartFailed", e.ok, "the sequencer cannot start on the database it wrote">> >>, l, run)
-    /\ UNCHANGED <<run, bound, pend, sureCount>>
+    /\ bound' = IF "bound" \in DOMAIN e THEN e.bound ELSE bound      \* the bound is a setting of the process, not of the database
+    /\ UNCHANGED <<run, pend, sureCount>>
 
 TPanic ==
     /\ Is("Panic") /\ Adv
